@@ -37,3 +37,53 @@ def char_cat(ch):
     if ch.isalpha():
         return "uni-letter"
     return "uni-other"
+
+
+# ---------------------------------------------------------------------------------------------------------------
+# Oracle self-tests against literals the repository itself publishes as correct (exit 2 on failure, skip if absent)
+
+def selftest_de():
+    import os
+    import re
+    from ..oracles import de as ode
+    from ..oracles.core import repo_root
+    from ..runner import HarnessError
+    path = os.path.join(repo_root(), "tests", "test_checksum.py")
+    if not os.path.exists(path):
+        return "skipped (tests/test_checksum.py absent)"
+    src = open(path, encoding="utf-8").read()
+    parts = re.split(r"def test_german_checksum_(success|failure)", src)
+    ok = bad = 0
+    if len(parts) >= 5:
+        for acct, m in re.findall(r'\("(\d{10})",\s*"DE:(\w\w)"\)', parts[0]):
+            if m in ode.METHODS and ode.ref(m, acct) is False:
+                raise HarnessError(f"O-de rejects the repository's accepting literal {acct} (method {m})")
+            ok += 1
+        for acct, m in re.findall(r'\("(\d{10})",\s*"DE:(\w\w)"\)', parts[2]):
+            if m in ode.METHODS and ode.ref(m, acct) is True:
+                raise HarnessError(f"O-de accepts the repository's rejecting literal {acct} (method {m})")
+            bad += 1
+    return f"{ok} accepting / {bad} rejecting literals reproduced"
+
+
+def selftest_iban():
+    import os
+    import re
+    from ..oracles.core import repo_root
+    from ..runner import HarnessError
+    path = os.path.join(repo_root(), "tests", "test_iban.py")
+    if not os.path.exists(path):
+        return "skipped (tests/test_iban.py absent)"
+    src = open(path, encoding="utf-8").read()
+    o = oracle()
+    out = {}
+    for name, expect in (("valid", True), ("experimental", True), ("invalid", False)):
+        m = re.search(rf"^{name} = \[(.*?)^\]", src, re.S | re.M)
+        if not m:
+            continue
+        lits = re.findall(r'"([^"\n]+)"', m.group(1))
+        for lit in lits:
+            if o.accept(lit) is not expect:
+                raise HarnessError(f"O-iban disagrees with the repository's {name} literal {lit!r}")
+        out[name] = len(lits)
+    return out
